@@ -52,7 +52,7 @@ CHECKS = {
                 'Rebin.tla enumerates every filter (2..3 nodes quick / 2..4 thorough out of 6-8 lattice frequencies, responses {0,1,2}, zero and non-zero edges) x every SED grid (2..4 / 2..5 nodes: coarser, finer, partial, disjoint, '
                 'edge-coincident, last bin containing the last-but-one filter node) and TLC checks sum_i R_i = integral over the overlap, non-negativity, zero outside the filter, flat spectrum -> c for a normalised filter inside the grid, '
                 'and linearity.  Sampled behaviours are replayed into Filter.rebin with filter and grid each stored in increasing and decreasing frequency, filters read from two-column wavelength files in either row order, and '
-                'Filter.normalize; recorded random filters (2-60 samples, irregular spacing) and grids (2-80) are validated by Trace_Rebin.  convolve_model_dir end to end (flux and quadrature errors, both package formats) is replayed by the Package.tla stage (shared with C07) inside this check: every model of a package has one of two frequency grids of equal length and equal end points, and one Filter object is re-used over grids. Filter responses are handed over as float arrays, integer arrays or lists, frequencies in Hz/GHz/THz, central wavelengths in micron/nm/cm.',
+                'Filter.normalize; recorded random filters (2-60 samples, irregular spacing) and grids (2-80) are validated by Trace_Rebin.  convolve_model_dir end to end (flux and quadrature errors, both package formats) is replayed by the Package.tla stage (shared with C07) inside this check: every model of a package has one of two frequency grids of equal length and equal end points, and one Filter object is re-used over grids. Filter responses are handed over as float arrays, integer arrays or lists, frequencies in Hz/GHz/THz, central wavelengths in micron/nm/cm. The end-to-end stage uses three filters, one of them so narrow that it holds no node of the first SED grid.',
         'ref': 'DESIGN.md section 6 C06',
         'note': _NOTE + ' Integer frequency lattice in units of c/12um; SED grid nodes even so that bin edges are lattice points.',
         'technique': 'TLA+ spec (exact integrals) + TLC exhaustive theorems; spec->code replay in all storage orders and through filter files; trace validation',
@@ -61,7 +61,7 @@ CHECKS = {
         'text': 'Package.tla: a package of 3 models (each on one of two SED frequency grids; 6 parameter-table orders x 6 directory-listing / cube orders x 2^3 stored spectral orders x per-file | cube x 1 | 2 apertures) convolved with 2 filters; the algorithm layer is the code\'s '
                 '(rows in listing order, order_to_match re-ordering to the table; cube rows in cube order, refused when cube and table orders differ), expected fluxes and squared errors come from RebinOps exactly.  TLC checks RowsLabelledRight, '
                 'OrderFollowsTable, CubeRefusesMismatch, CellsDistinct on all 2304 packages.  Replay builds each sampled package for real (SED files via SED.write and as raw FITS per the docs, cube via SEDCube.write), runs convolve_model_dir with both '
-                'filters at once, reads every convolved file (row names/order, FILTWAV, apertures, flux and error per aperture to 2e-6) and fits a source with every variant, memmap on and off, requiring agreement between variants; concrete size 3 or 6 models and 2 or 4 apertures (copies / aperture blocks scaled, expected cells by linearity); a third of the packages are convolved in two calls with a fit and a listing in between. Half of the per-file SED files hold nu F_nu in erg/cm2/s (legacy or FITS unit strings) instead of F_nu in mJy.',
+                'filters at once, reads every convolved file (row names/order, FILTWAV, apertures, flux and error per aperture to 2e-6) and fits a source with every variant, memmap on and off, requiring agreement between variants; concrete size 3 or 6 models and 2 or 4 apertures (copies / aperture blocks scaled, expected cells by linearity); a third of the packages are convolved in two calls with a fit and a listing in between. Half of the per-file SED files hold nu F_nu in erg/cm2/s (legacy or FITS unit strings) instead of F_nu in mJy. Packages store their aperture radii in AU, pc or cm; three filters.',
         'ref': 'DESIGN.md section 6 C07',
         'note': _NOTE + ' This check also decides the end-to-end half of C06 (flux = sum F R, errors in quadrature).',
         'technique': 'TLA+ spec (order_to_match permutation algebra + exact convolution) + TLC exhaustive; replay through convolve_model_dir on real packages of both formats',
@@ -70,7 +70,7 @@ CHECKS = {
         'text': 'MC_Planted.tla (on FitKernel): photometry synthesised on the lattice from model mp at (A_V0, scale) or at grid distance i0; TLC checks PlantedRecovered for 3 grids x 2 extinction patterns x every planted model x 4 planted (A_V0, scale) x 3 relative errors x '
                 '{aperture-independent, distance grid x 3 planted distances} x {no extra model, a 4th model with zero flux in a fitted band (PlantedFirst, DarkLast: its chi^2 is NaN or >= 1e30 and it is ranked last)}: chi^2 = 0 exactly at the planted parameters, the planted distance is the unique grid minimum, and every other model has chi^2 > 0 whenever the grid is non-degenerate -- '
                 'non-degeneracy (no model in another\'s span of reddening + scaling) is computed by the spec.  Replay runs the WHOLE chain on real files: SED package (per-file or cube, random table permutation, storage orders, library or raw writer) with SEDs constant over each '
-                'normalised filter\'s support -> convolve_model_dir -> data file -> fit() -> first record of the fit file -> write_parameters first row (model, chi^2, A_V, scale, the model\'s own parameter row). The planted tables of the distance mode depend on the aperture (AP = <<0,1,2>> quarter dex at the three requested radii) and packages store their radii in AU, pc or cm.',
+                'normalised filter\'s support -> convolve_model_dir -> data file -> fit() -> first record of the fit file -> write_parameters first row (model, chi^2, A_V, scale, the model\'s own parameter row). The planted tables of the distance mode depend on the aperture (AP = <<0,1,2>> quarter dex at the three requested radii) and packages store their radii in AU, pc or cm. In the distance mode the three bands are measured in 1, 10 and 0.1 arcsec (AP is per band); radii are stored in AU/pc/cm/kpc; per-file packages mix two SED grids of equal length and end points.',
         'ref': 'DESIGN.md section 6 C08',
         'note': _NOTE + ' Planted A_V0 and scale are multiples of 1.25 mag and 1/8 dex so that the photometry stays on the quarter-dex lattice.',
         'technique': 'TLA+ spec (FitKernel + computed non-degeneracy) + TLC; end-to-end replay of the full pipeline on real packages',
@@ -79,7 +79,7 @@ CHECKS = {
         'text': 'Post.tla (on FitSession): the algorithm layer is FitInfo.filter_table\'s index arithmetic (subset of a table by the kept names, argsort(argsort(names))); TLC checks for 4 sources x record lengths 0..4 x 8 selectors x all 24 '
                 'parameter-file row orders that with a name-sorted table the row attached to fit i is the row of the model named in fit i (RowsFollowRanking) and that without the sort this fails exactly when the file is not already sorted (SortIsNeeded).  '
                 'Per (source, record, selector) the spec emits every model\'s chi^2, A_V, scale and parameter row; replay runs write_parameters, extract_parameters, write_parameter_ranges and FitInfo.filter_table on real packages whose parameter file '
-                'is in a random row order with padded names and has 1, 2, 3 or 4 numeric columns, with file / object / list input and optional additional-parameter dictionaries, and compares every printed cell by model name (rows in chi^2 order, the n best, n_data, n_fits, min/best/max, zero-fit placeholder). One model carries the additional-parameter value 0 exactly.',
+                'is in a random row order with padded names and has 1, 2, 3 or 4 numeric columns, with file / object / list input and optional additional-parameter dictionaries, and compares every printed cell by model name (rows in chi^2 order, the n best, n_data, n_fits, min/best/max, zero-fit placeholder). One model carries the additional-parameter value 0 exactly. One model carries an undefined (NaN) additional value, in a quarter of the cases the best-fitting one.',
         'ref': 'DESIGN.md section 6 C09',
         'note': _NOTE + ' Printed precision (4 significant digits); exact chi^2 ties at the cut / at rank 1 relax the min/max / best comparison of non-chi^2 columns.',
         'technique': 'TLA+ spec (permutation algebra of filter_table on FitSession/FitKernel) + TLC exhaustive; replay through the three listing functions',
@@ -91,7 +91,7 @@ CHECKS = {
                 'exhaustively (pool of 6 sources incl. two with a singular regression (all-NaN fits), n_data_min 0..3, 4 models, files of <= 3 lines, all argument combinations, <= 2 later calls).  TLC -simulate behaviours (files of <= 6 lines, <= 3 later calls) carrying the expected file '
                 'and the expected listing of every later call are replayed through sedfitter.fit, FitInfoFile, write_parameters, write_parameter_ranges, extract_parameters: records compared NaN-aware with '
                 'Fitter.fit+keep, metadata compared (filters, apertures, law tabulated in micron/nm/cm/Angstrom with units required equal), and after EVERY call all in-memory results and the file bytes re-projected.  Recorded random sessions (random worlds, <= 12 lines, <= 4 calls) are validated by Trace_FitSession '
-                'whose unlogged loop steps are composed silently.',
+                'whose unlogged loop steps are composed silently. An off-lattice stage compares, for 200 data files with zero / negative / NaN / placeholder values, the file with the object interface line by line. Fits of sources whose regression is singular are unspecified and only compared with the object interface.',
         'ref': 'DESIGN.md section 6 C10',
         'note': _NOTE + ' Runs that write no record are outside the property.  Parameter values inside listings are C09\'s subject; C10 compares names, n_data, n_fits, row counts.',
         'technique': 'TLA+ state machine + TLC (safety, action properties, liveness); -simulate behaviours replayed through the real pipeline; trace validation with silent steps',
@@ -100,7 +100,7 @@ CHECKS = {
         'text': 'SpectralStore.tla models SED and cube objects and files as layouts of cell tokens <<model, aperture, wavelength rank>> along a spectral axis of ranks; writers (SED.write sorts by frequency, a cube is stored as given), '
                 'readers (reverse everything together when the requested order differs) and get_sed are permutations.  TLC checks on EVERY history of 5 operations (create asc|desc x SED|cube x with/without uncertainties, write, read nu|wav, get_sed) '
                 'that no cell is ever separated from its wavelength/aperture/model (ReadBack, ModelIdentity), that the axis is monotone and that the other order only reverses.  Every history is replayed on real files with per-cell distinct values, '
-                'random concrete sizes (1-6 models with deliberately unsorted names, none/1-5 apertures, 2-40 wavelengths), flux unit in {mJy, Jy, erg/cm2/s, erg/s}, memmap on/off; plus ConvolvedFluxes.write/read round trips.',
+                'random concrete sizes (1-6 models with deliberately unsorted names, none/1-5 apertures, 2-40 wavelengths), flux unit in {mJy, Jy, erg/cm2/s, erg/s}, memmap on/off; plus ConvolvedFluxes.write/read round trips. Convolved-flux tables hold apertures in AU/pc/kpc and the error column in the flux unit or its twin.',
         'ref': 'DESIGN.md section 6 C12',
         'note': _NOTE + ' The spec decides which cell goes where; value fidelity (dtype, the nu*F_nu round trip, 1e-9) is enforced by the harness on the replayed cells only.',
         'technique': 'TLA+ spec of layouts/permutations + TLC exhaustive over all histories; every history replayed on real FITS files',
@@ -108,7 +108,7 @@ CHECKS = {
     'C15': {
         'text': 'Units.tla is the exponent algebra of convert_flux (F = nu F_nu, L = F d^2, powers of ten): TLC checks RoundTrip, PathIndependent, FamilyRelations and ChainIsDirect for all 5x5 pairs and 5x5x5 triples of '
                 '{mJy, Jy, erg/cm2/s, W/m2, erg/s}.  Every pair and triple is replayed through SED.write -> SED.read(unit_flux=...) -> write -> read with 1-5 apertures, per-cell frequencies and distances that are powers of ten '
-                '(so the expected value is exact), and an unsupported unit (K) must be refused. Half of the files whose cells fit the 4-byte range in both intermediate forms are rewritten with FITS E (single precision) columns before being read.',
+                '(so the expected value is exact), and an unsupported unit (K) must be refused. Half of the files whose cells fit the 4-byte range in both intermediate forms are rewritten with FITS E (single precision) columns before being read. A third of the source SEDs carry the error in the twin unit of the flux column; a quarter have one cell with flux exactly 0.',
         'ref': 'DESIGN.md section 6 C15',
         'note': _NOTE + ' The family fits this property least (DESIGN.md 9): the spec is an additive group and nearly all assurance is the exhaustive replay; astropy unit arithmetic is trusted.',
         'technique': 'TLA+ exponent-algebra spec + TLC; exhaustive replay of all unit pairs/triples through real SED files',
@@ -118,7 +118,7 @@ CHECKS = {
                 'over radii subsets of {1,2,4,8,16} AU (1..3 knots quick, 1..4 thorough), 2 rows, values in {0,1,3} (0..3) and TLC checks ExactAtKnots, LinearBetween, ClampedAbove, RefusedBelow, '
                 'SingleRepeats and that one too-small request refuses the call while others are unaffected, for 15 requests from below to above the table.  Every sampled table is replayed into '
                 'ConvolvedFluxes.interpolate (table and requests in AU/pc/cm, flux and error rows), SED.interpolate (bare numbers in AU and quantities) and SED.interpolate_variable (bare numbers in AU, table in AU/pc/cm); a request ON a tabulated radius is derived from the stored value of the table converted to the unit of the request; '
-                'recorded random tables (1-8 knots, 1-6 rows) are validated by Trace_ApInterp. Every request is also issued in a shuffled order.',
+                'recorded random tables (1-8 knots, 1-6 rows) are validated by Trace_ApInterp. Every request is also issued in a shuffled order. Tables and requests also in kpc and Mpc; the error column of half of the tables is held in Jy.',
         'ref': 'DESIGN.md section 6 C13',
         'note': _NOTE + ' No refusal is admitted at a tabulated radius (requests on the table are derived from the table); the plotting variant may use 0.999 x largest radius at and above the table end.',
         'technique': 'TLA+ spec (exact piecewise-linear functions) + TLC exhaustive; spec->code replay into three entry points; trace validation',
@@ -127,7 +127,7 @@ CHECKS = {
         'text': 'ExtinctionLaw.tla defines k(lambda) = -2/5 chi(lambda)/chi(V) exactly with zero outside the table; Extinction.tla builds every table of 2..5 (thorough 6) nodes over a 6-wavelength lattice '
                 '(V on a node or between nodes), opacities 1..4, then all sequences of two representation changes (pickle, table, text file, text file with column selection, unit changes, rescaling).  TLC checks '
                 'ExactAtV, ZeroOutside, ScaleInvariant, AtNodes, NonPositive, TableNeverChanges.  Sampled behaviours are replayed into Extinction.get_av (queries on nodes / between / outside / at the ends, in um/nm/cm/m, '
-                'as one vector, as 1-element arrays and as true 0-d Quantities) to 1e-12; recorded random tables of 2..60 (thorough 200) rows with random conversions and queries are validated by Trace_Extinction.',
+                'as one vector, as 1-element arrays and as true 0-d Quantities) to 1e-12; recorded random tables of 2..60 (thorough 200) rows with random conversions and queries are validated by Trace_Extinction. Unit changes also to m, km and pc.',
         'ref': 'DESIGN.md section 6 C14',
         'note': _NOTE + ' Boundary: a query exactly on the first/last node that went through a unit conversion may fall 1 ulp outside (0).',
         'technique': 'TLA+ spec (exact rational law) + TLC exhaustive; spec->code replay; trace validation',
@@ -146,7 +146,7 @@ CHECKS = {
         'text': 'Plot.tla: the collection of curves plot() returns -- per display mode the apertures shown (interp: each filter\'s own; largest; smallest+largest; all distinct filter apertures in increasing order), drawn for the selected fits n..1 so that the best fit is last; '
                 'TLC checks CurveCount, BestLast, EveryFitShown and PassesThroughPred for 1..5 selected fits x 4 modes x 5 filter-aperture patterns x single/multi-aperture package x object/file input.  EVERY configuration is replayed: real cube package, Fitter with wavelength filters '
                 'at tabulated wavelengths, Fitter.fit, plot(..., output_dir=None, sed_type=..., select_format=("N", n)) on the object or on a fit file; number and order of the segments of the returned LineCollection, and each curve at each fitted wavelength whose filter aperture it is shown for '
-                'against the predicted flux stored with the fit (mJy -> nu F_nu), within 2e-3 dex. Plot worlds use unsorted model names and tabulate the law in micron/nm/cm/Angstrom.',
+                'against the predicted flux stored with the fit (mJy -> nu F_nu), within 2e-3 dex. Plot worlds use unsorted model names and tabulate the law in micron/nm/cm/Angstrom. A_V ranges from -2 to 4. Curves are matched to (fit, aperture) as a set; only the best fit is required last.',
         'ref': 'DESIGN.md section 6 C17',
         'note': _NOTE + " Nothing is claimed about what reaches the canvas; the unimplemented sed_type 'smallest' is outside the property.",
         'technique': 'TLA+ spec of the curve layout + TLC exhaustive; every configuration replayed through Fitter.fit and plot() on real cube packages',
@@ -154,7 +154,7 @@ CHECKS = {
     'C18': {
         'text': 'filter_output is the Split action of FitSession: a verdict per record from the best chi^2 (chi=) or best chi^2 per fitted point (cpd=) against the threshold, under Select\'s abstract-float rules.  '
                 'Thresholds are generated tightly around every pool source\'s own criterion value.  Replay through the real function on file and list inputs (explicit and automatic output names): each source in exactly one '
-                'file, input order kept, records NaN-aware equal to the input, verdicts as the spec says; recorded sessions validated by Trace_FitSession. Output names: both automatic, both explicit, or one of each.',
+                'file, input order kept, records NaN-aware equal to the input, verdicts as the spec says; recorded sessions validated by Trace_FitSession. Output names: both automatic, both explicit, or one of each. A split-all stage puts every pool source through chi= and cpd= at thresholds 7 units above and below its own criterion value.',
         'ref': 'DESIGN.md section 6 C18',
         'note': _NOTE + ' Records with zero kept fits are not split (the function indexes the best fit).',
         'technique': 'TLA+ state machine + TLC; behaviours replayed through filter_output; trace validation',
@@ -163,7 +163,7 @@ CHECKS = {
         'text': 'TLC checks the kernel invariances PermuteBands (all 6 permutations of 3 bands; a transposition, the rotation and the reversal of 4-band sources holding two limits with different confidences; thorough: all 24) and ScaleFlux (4 constants) on every enumerated source.  Replay: all sampled behaviours of a '
                 'configuration go through ONE real fitter in seed-shuffled order (history freedom; source pickled before/after), then again on packages with bands and models permuted and all '
                 'fluxes scaled by 10^(c/4), compared to the spec rows (scale shifted by -c/8).  Trace_FitKernel validates recorded histories of up to 6 interleaved fits per fitter against '
-                'a spec state that contains only the fitter.',
+                'a spec state that contains only the fitter. In half of the cube-format worlds one filter is given by its wavelength instead of its name.',
         'ref': 'DESIGN.md section 6 C11',
         'note': _NOTE,
         'technique': 'TLA+ spec + TLC invariance theorems; spec->code replay on permuted/scaled worlds and shared-fitter histories; trace validation',
@@ -173,7 +173,7 @@ CHECKS = {
                 '(open = load 3 blocks; iterate until no byte is left; a partial block fails).  TLC checks PrefixOrError, CleanStop, reader == ReadResult(blocks, cut) and termination for every '
                 'size pattern over {2,3,5} bytes, 1..3 (thorough 4) records and every cut.  The self-delimiting assumption is discharged on real bytes: real files (1-4 records, with/without predicted '
                 'fluxes, n_fits 0..n_models) are cut at EVERY offset, read with FitInfoFile, and the outcome (opened, records yielded, each compared NaN-aware with the written one, clean stop or error) '
-                'is validated by Trace_Crash against the real block sizes. Two more files hold a first record of 2 500 / 12 000 fits (thorough: up to 40 000) and are cut at ~300 spread offsets and at every pickle boundary; 40% of the records have exactly the byte size of their predecessor.',
+                'is validated by Trace_Crash against the real block sizes. Two more files hold a first record of 2 500 / 12 000 fits (thorough: up to 40 000) and are cut at ~300 spread offsets and at every pickle boundary; 40% of the records have exactly the byte size of their predecessor. Header and record sizes are measured from file sizes alone (no assumption on how the metadata is stored).',
         'ref': 'DESIGN.md section 6 C19',
         'note': _NOTE + ' To the letter of C19 an early failure is admitted; a record not wholly before the cut, a differing record, or opening without complete metadata is not.',
         'technique': 'TLA+ spec of writer/crash/reader + TLC (safety + liveness); exhaustive truncation of real files validated as traces',
@@ -194,7 +194,7 @@ CHECKS = {
                 'and all histories of two keep calls, that count-then-slice keeps exactly the promised fits, as a prefix, idempotently and '
                 'independently of a looser earlier cut.  Every enumerated (vector, selector) and sampled (thorough: all) selector pairs are '
                 'replayed on real FitInfo objects with the whole projected state compared; random longer histories (length <= 40, <= 4 keeps) '
-                'recorded from the code are validated by Trace_Select.',
+                'recorded from the code are validated by Trace_Select. Flag-4 points carry log10 fluxes <= 0; (E|F, n_data = 0) is excluded: dividing by zero fitted points is outside the property.',
         'ref': 'DESIGN.md section 6 C05',
         'note': _NOTE + ' Thresholds exactly equal to an attained value admit both counts (excluded by the property).',
         'technique': 'TLA+ spec + TLC exhaustive model checking; spec->code behaviour replay; code->spec trace validation',
